@@ -25,9 +25,10 @@ enum Sym
     S_B,
     S_RFIX,
     S_IFIX,
+    S_REINIT, // last, so that recorded cases keep their numbering
     NSYM
 };
-static const char *sym_name[NSYM] = {"START", "STOP", "STUB", "code(START)", "code(STOP)", "code(STUB)", "'a'", "'b'", "RFIX", "IFIX"};
+static const char *sym_name[NSYM] = {"START", "STOP", "STUB", "code(START)", "code(STOP)", "code(STUB)", "'a'", "'b'", "RFIX", "IFIX", "re-init"};
 
 struct RxModel : mc::Model
 {
@@ -93,6 +94,8 @@ struct RxModel : mc::Model
                 return false;
             gsref::put_escaped(M, gsref::crc8(m.d), out);
             return true;
+        case S_REINIT:
+            return true; // no bytes: handled in apply()
         case S_IFIX:
         {
             // One IFIX between two marker bytes: the value is a function of the receiver's buffer, and a receiver that
@@ -117,6 +120,17 @@ struct RxModel : mc::Model
         if (!bytes_of(ops[op], bs))
             return false;
         hist += (char)('a' + op);
+        if (ops[op] == S_REINIT)
+        {
+            // init()/setbuf() again on the same buffer, in whatever state the receiver is (buffer hand-over, link
+            // restart).  From here on the receiver must behave like a fresh one.
+            if (rig.mon.started || rig.mon.esc)
+                mc::nontrivial();
+            rig.reinit();
+            ifix_used = false;
+            mc::outcome("re-init");
+            return true;
+        }
         int flagged0 = rig.mon.flagged;
         if (ops[op] == S_IFIX)
             ifix_used = true;
